@@ -55,6 +55,10 @@ pub enum Step {
     Empty(u8),
     /// jump to just below a boundary height (fabricated state through the public from_block)
     Teleport(u8),
+    /// admission check: validate transactions on a scratch copy of the state and keep the accepted ones for later
+    Admit(Vec<TxPlan>),
+    /// include up to n waiting transactions as one batch
+    Include(u8),
 }
 
 #[derive(Clone, Debug, Serialize, Deserialize)]
@@ -108,6 +112,15 @@ pub struct Profile {
     pub start_past_legacy: bool,
     /// a third of the ordinary transactions try to spend the first output of a staking transaction
     pub prefer_staked: bool,
+    /// some faucets are the literal grandfathered mainnet faucet
+    pub grandfathered_faucet: bool,
+    /// one destination in eight is a covenant that reads the previous header (expiring offers, time locks)
+    pub header_covenants: bool,
+    /// plans contain admission checks on scratch copies and later inclusion of the admitted transactions
+    pub mempool: bool,
+    /// up to this many empty blocks (chosen by the plan's configuration bytes) are sealed, with the monitor
+    /// attached, before the first step, so that histories reach larger heights
+    pub lead_blocks: u8,
 }
 
 impl Profile {
@@ -127,6 +140,10 @@ impl Profile {
             warp: false,
             start_past_legacy: false,
             prefer_staked: false,
+            grandfathered_faucet: false,
+            header_covenants: true,
+            mempool: true,
+            lead_blocks: 0,
         }
     }
 }
@@ -188,6 +205,8 @@ pub fn arb_step(max_txs: usize) -> impl Strategy<Value = Step> {
         1 => Just(Step::Restart),
         1 => (0u8..4).prop_map(Step::Empty),
         1 => any::<u8>().prop_map(Step::Teleport),
+        2 => proptest::collection::vec(arb_tx(3, 4), 1..=3).prop_map(Step::Admit),
+        2 => (1u8..4).prop_map(Step::Include),
     ]
 }
 
@@ -307,7 +326,7 @@ pub struct TxMeta {
     pub pool: Option<String>,
 }
 
-pub const MUTATIONS: [&str; 17] = [
+pub const MUTATIONS: [&str; 18] = [
     "value+1",
     "value-1",
     "repeat-input",
@@ -325,6 +344,7 @@ pub const MUTATIONS: [&str; 17] = [
     "dup-tx",
     "empty-tx",
     "destroy-output",
+    "input-taken-by-another-tx-of-the-batch",
 ];
 
 fn split(total: u128, weights: &[u8]) -> Vec<u128> {
@@ -397,7 +417,7 @@ fn sign_tx(tx: &mut Transaction, inputs: &[WCoin], wrong_key: bool) {
             CovSpec::SigNew(k) => {
                 need.insert(i, k);
             }
-            CovSpec::True => {}
+            _ => {}
         }
     }
     tx.sigs.clear();
@@ -420,7 +440,7 @@ fn placeholder_sigs(tx: &mut Transaction, inputs: &[WCoin]) {
         match c.cov {
             CovSpec::SigLegacy(_) => slots.push(0),
             CovSpec::SigNew(_) => slots.push(i),
-            CovSpec::True => {}
+            _ => {}
         }
     }
     for s in slots.iter() {
@@ -566,6 +586,7 @@ pub struct Builder<'a> {
     pub height: u64,
     pub pools: Vec<PoolKey>,
     pub batch_created: Vec<CoinID>,
+    pub batch_spent: Vec<CoinID>,
 }
 
 impl<'a> Builder<'a> {
@@ -576,11 +597,15 @@ impl<'a> Builder<'a> {
                 pools.push(*k);
             }
         }
-        Builder { w, p, avail: w.wallet.clone(), mult: snap.fee_mult, height: snap.height, pools, batch_created: vec![] }
+        Builder { w, p, avail: w.wallet.clone(), mult: snap.fee_mult, height: snap.height, pools, batch_created: vec![], batch_spent: vec![] }
     }
 
     fn dest(&self, d: u8) -> CovSpec {
-        CovSpec::from_sel(d)
+        if self.p.header_covenants {
+            CovSpec::from_sel_with_header(d)
+        } else {
+            CovSpec::from_sel(d)
+        }
     }
 
     fn after(&mut self, b: &Built) {
@@ -732,6 +757,12 @@ impl<'a> Builder<'a> {
     }
 
     fn build_faucet(&mut self, tp: &TxPlan) -> Option<Built> {
+        if self.p.grandfathered_faucet && tp.amount % 8 == 3 {
+            // the one historical mainnet faucet the code still lets through (its body is in the repository's tests)
+            let tx = grandfathered_faucet();
+            let valid = tx.fee.0 >= tx.base_fee(self.mult, 0, melvm::covenant_weight_from_bytes).0;
+            return Some(Built { tx, inputs: vec![], valid, spelling: None, pool: None });
+        }
         let mut tx = Transaction::new(TxKind::Faucet);
         let denoms = [Denom::Mel, Denom::Sym, Denom::Erg, Denom::Mel, Denom::Sym, Denom::NewCustom];
         for op in tp.outs.iter() {
@@ -1077,6 +1108,21 @@ impl<'a> Builder<'a> {
                 b.inputs.clear();
                 b.tx.fee = CoinValue(0);
             }
+            "input-taken-by-another-tx-of-the-batch" => {
+                // prefer a coin that was itself created inside this batch
+                let pool: Vec<CoinID> = {
+                    let created: Vec<CoinID> = self.batch_spent.iter().copied().filter(|c| self.batch_created.contains(c)).collect();
+                    if !created.is_empty() && j % 4 != 0 {
+                        created
+                    } else {
+                        self.batch_spent.clone()
+                    }
+                };
+                if pool.is_empty() {
+                    return (b, None, false);
+                }
+                b.tx.inputs.push(pool[j % pool.len()]);
+            }
             "destroy-output" => {
                 if b.tx.outputs.is_empty() {
                     return (b, None, false);
@@ -1135,12 +1181,30 @@ impl<'a> Builder<'a> {
         };
         if mutation.is_none() || mutation == Some("destroy-output") {
             self.after(&b);
+            self.batch_spent.extend(b.tx.inputs.iter().copied());
         }
         let mut v = vec![(b.tx.clone(), meta.clone())];
         if dup {
             v.push((b.tx, meta));
         }
         v
+    }
+}
+
+pub fn grandfathered_faucet() -> Transaction {
+    Transaction {
+        kind: TxKind::Faucet,
+        inputs: vec![],
+        outputs: vec![CoinData {
+            value: CoinValue::from_millions(1001u64),
+            denom: Denom::Mel,
+            covhash: "t3ew4xh2yts8j1a8vzdfpbkzzvb5gz3sn7s9jw7qc9djrph2wpg52g".parse().unwrap(),
+            additional_data: vec![].into(),
+        }],
+        data: hex::decode("202fb0573b6dfe780f249bec6069bb39dbccb7ed9536c0480e20e1e29050f430").unwrap().into(),
+        fee: CoinValue::from_millions(1001u64),
+        covenants: vec![],
+        sigs: vec![],
     }
 }
 
@@ -1277,6 +1341,14 @@ pub fn run_plan(plan: &Plan, profile: &Profile, mon: &mut dyn Monitor, st: &mut 
             snap = w.snap();
         }
     }
+    if profile.lead_blocks > 0 {
+        let n = (plan.cfg.cov as u32 * 7 + plan.cfg.denom as u32) % (profile.lead_blocks as u32 + 1);
+        for _ in 0..n {
+            if !do_seal(&mut w, &mut snap, None, mon, st, &mut txs_in_block)? {
+                return mon.on_end(&w, st);
+            }
+        }
+    }
     for step in plan.steps.iter() {
         match step {
             Step::Batch(tps, order) => {
@@ -1293,6 +1365,125 @@ pub fn run_plan(plan: &Plan, profile: &Profile, mon: &mut dyn Monitor, st: &mut 
                 }
                 shuffle(&mut txs, *order);
                 shuffle(&mut metas, *order);
+                if !apply_and_observe(&mut w, &mut snap, txs, metas, mon, st, &mut txs_in_block)? {
+                    break;
+                }
+            }
+            Step::Seal(a) => {
+                let action = mk_action(*a);
+                if !do_seal(&mut w, &mut snap, action, mon, st, &mut txs_in_block)? {
+                    break;
+                }
+            }
+            Step::Empty(n) => {
+                let mut ok = true;
+                for _ in 0..*n {
+                    if !do_seal(&mut w, &mut snap, None, mon, st, &mut txs_in_block)? {
+                        ok = false;
+                        break;
+                    }
+                }
+                if !ok {
+                    break;
+                }
+            }
+            Step::Admit(tps) => {
+                if !profile.mempool {
+                    continue;
+                }
+                let built: Vec<(Transaction, TxMeta)> = {
+                    let mut b = Builder::new(&w, profile, &snap);
+                    let mut out = vec![];
+                    for tp in tps.iter() {
+                        out.extend(b.build(tp));
+                    }
+                    out
+                };
+                for (tx, _) in built {
+                    w.reg.tx(&tx);
+                    // the admission check runs on a copy that is thrown away
+                    let mut scratch = w.cur.clone();
+                    let pool = w.pool.clone();
+                    let ok = matches!(crate::util::catch(|| pool.install(|| scratch.apply_tx(&tx))), Ok(Ok(())));
+                    if ok && w.mempool.len() < 8 {
+                        w.mempool.push(tx);
+                        st.class("admitted-to-mempool");
+                    }
+                }
+            }
+            Step::Include(n) => {
+                if !profile.mempool || w.mempool.is_empty() {
+                    continue;
+                }
+                let take = (*n as usize).min(w.mempool.len());
+                let txs: Vec<Transaction> = w.mempool.drain(..take).collect();
+                let metas: Vec<TxMeta> = txs
+                    .iter()
+                    .map(|t| TxMeta { kind: format!("{:?}-from-mempool", t.kind).to_lowercase(), mutation: None, valid_by_construction: false, spends_batch_output: false, spelling: None, pool: None })
+                    .collect();
+                st.class("mempool-batch-included");
+                if !apply_and_observe(&mut w, &mut snap, txs, metas, mon, st, &mut txs_in_block)? {
+                    break;
+                }
+            }
+            Step::Teleport(c) => {
+                if profile.p_teleport == 0 || txs_in_block > 0 {
+                    continue;
+                }
+                if let Some(target) = teleport_target(w.net, snap.height, *c) {
+                    if !teleport(&mut w, target, st) {
+                        break;
+                    }
+                    snap = w.snap();
+                    st.class("teleported");
+                }
+            }
+            Step::Restart => {
+                if txs_in_block > 0 {
+                    // a node restarts from a sealed block; pending transactions of an open block are not persisted
+                    continue;
+                }
+                if let Some(s) = w.last_sealed.clone() {
+                    let db = w.db.clone();
+                    let r = crate::util::catch(|| {
+                        let blk = s.to_block();
+                        let stakes = s.raw_stakes();
+                        let r = Sealed::from_block(&blk, &stakes, &db);
+                        let n = r.next_unsealed();
+                        (r, n)
+                    });
+                    match r {
+                        Ok((r, n)) => {
+                            mon.on_restart(&w, &s, &r, st)?;
+                            if profile.restart_replaces {
+                                w.cur = n;
+                                w.last_sealed = Some(r);
+                                snap = w.snap();
+                            }
+                        }
+                        Err(p) => {
+                            mon.on_panic(&w, "restart", &p, st)?;
+                            break;
+                        }
+                    }
+                }
+            }
+        }
+    }
+    mon.on_end(&w, st)
+}
+
+/// Applies a batch to the world, updates the wallet, and shows the result to the monitor.
+fn apply_and_observe(
+    w: &mut World,
+    snap: &mut Snap,
+    txs: Vec<Transaction>,
+    metas: Vec<TxMeta>,
+    mon: &mut dyn Monitor,
+    st: &mut Stats,
+    txs_in_block: &mut usize,
+) -> Result<bool, crate::evidence::Violation> {
+    {
                 for tx in txs.iter() {
                     w.reg.tx(tx);
                     if tx.kind == TxKind::Faucet && !w.faucets_seen.contains(tx) && w.faucets_seen.len() < 16 {
@@ -1311,7 +1502,7 @@ pub fn run_plan(plan: &Plan, profile: &Profile, mon: &mut dyn Monitor, st: &mut 
                 let post_view = w.view();
                 let post = decode_view(&post_view, &w.reg);
                 if let Outcome::Ok(()) = outcome {
-                    txs_in_block += txs.len();
+                    *txs_in_block += txs.len();
                     // wallet bookkeeping
                     let spent: std::collections::BTreeSet<CoinID> = txs.iter().flat_map(|t| t.inputs.iter().copied()).collect();
                     let mut keep = vec![];
@@ -1371,7 +1562,7 @@ pub fn run_plan(plan: &Plan, profile: &Profile, mon: &mut dyn Monitor, st: &mut 
                     eprintln!("     ref verdict: reject={:?} unspecified={:?}", verdict.reject, verdict.unspecified);
                 }
                 if let Outcome::Panicked(p) = &outcome {
-                    mon.on_panic(&w, "apply_tx_batch", p, st)?;
+                    mon.on_panic(w, "apply_tx_batch", p, st)?;
                 }
                 let ob = BatchObs {
                     pre_state: &pre_state,
@@ -1386,72 +1577,10 @@ pub fn run_plan(plan: &Plan, profile: &Profile, mon: &mut dyn Monitor, st: &mut 
                     verdict: &verdict,
                     ref_post: ref_post.as_ref(),
                 };
-                mon.on_batch(&w, &ob, st)?;
-                snap = post;
-            }
-            Step::Seal(a) => {
-                let action = mk_action(*a);
-                if !do_seal(&mut w, &mut snap, action, mon, st, &mut txs_in_block)? {
-                    break;
-                }
-            }
-            Step::Empty(n) => {
-                let mut ok = true;
-                for _ in 0..*n {
-                    if !do_seal(&mut w, &mut snap, None, mon, st, &mut txs_in_block)? {
-                        ok = false;
-                        break;
-                    }
-                }
-                if !ok {
-                    break;
-                }
-            }
-            Step::Teleport(c) => {
-                if profile.p_teleport == 0 || txs_in_block > 0 {
-                    continue;
-                }
-                if let Some(target) = teleport_target(w.net, snap.height, *c) {
-                    if !teleport(&mut w, target, st) {
-                        break;
-                    }
-                    snap = w.snap();
-                    st.class("teleported");
-                }
-            }
-            Step::Restart => {
-                if txs_in_block > 0 {
-                    // a node restarts from a sealed block; pending transactions of an open block are not persisted
-                    continue;
-                }
-                if let Some(s) = w.last_sealed.clone() {
-                    let db = w.db.clone();
-                    let r = crate::util::catch(|| {
-                        let blk = s.to_block();
-                        let stakes = s.raw_stakes();
-                        let r = Sealed::from_block(&blk, &stakes, &db);
-                        let n = r.next_unsealed();
-                        (r, n)
-                    });
-                    match r {
-                        Ok((r, n)) => {
-                            mon.on_restart(&w, &s, &r, st)?;
-                            if profile.restart_replaces {
-                                w.cur = n;
-                                w.last_sealed = Some(r);
-                                snap = w.snap();
-                            }
-                        }
-                        Err(p) => {
-                            mon.on_panic(&w, "restart", &p, st)?;
-                            break;
-                        }
-                    }
-                }
-            }
-        }
+                mon.on_batch(w, &ob, st)?;
+                *snap = post;
     }
-    mon.on_end(&w, st)
+    Ok(true)
 }
 
 fn do_seal(w: &mut World, snap: &mut Snap, action: Option<ProposerAction>, mon: &mut dyn Monitor, st: &mut Stats, txs_in_block: &mut usize) -> Result<bool, crate::evidence::Violation> {
